@@ -56,7 +56,15 @@ def sh(cmd, timeout=None, cwd=None, env=None):
 # build steps
 def run_pygen(stages=()):
     """Tie A: regenerate coq/gen from the working tree.  Returns the PYGEN-* lines."""
-    rc, out = sh([PY, os.path.join(VERIF, "tools", "pygen.py"), os.path.join(COQ, "gen")] + list(stages),
+    stages = list(stages)
+    if stages:
+        # coq/gen is not tracked: in a fresh checkout (no setup run yet) the files of the stages this check does not
+        # list are absent, and the extraction file imports all of them - generate what is missing as well
+        for st, fn in (("tables", "GenCrcTables.v"), ("consts", "GenConsts.v"), ("bitfields", "GenBitfields.v"),
+                       ("schemas", "GenSchemas.v"), ("enums", "GenEnums.v")):
+            if st not in stages and not os.path.exists(os.path.join(COQ, "gen", fn)):
+                stages.append(st)
+    rc, out = sh([PY, os.path.join(VERIF, "tools", "pygen.py"), os.path.join(COQ, "gen")] + stages,
                  timeout=300)
     lines = [l for l in out.splitlines() if l.startswith("PYGEN-")]
     if rc != 0:
